@@ -51,6 +51,9 @@ class TapeRecorder(object):
         self._random = Random(random_seed)
         self._force_sample = False
         self._thread_locals = threading.local()
+        # Guards the transitions of the active recording state (start / finalise / discard / force sampling), these can
+        # be triggered from worker threads of the recorded operation
+        self._state_lock = threading.RLock()
 
     @contextmanager
     def start_recording(self, category, metadata, post_operation_metadata_extractor=None):
@@ -78,8 +81,7 @@ class TapeRecorder(object):
             metadata[TapeRecorder.EXCEPTION_IN_OPERATION] = True
             raise
         finally:
-            # Recording was discarded
-            if self._active_recording is not None:
+            with self._state_lock:
                 recording = self._active_recording
                 force_sample = self.is_recording_sample_forced
                 recording_parameters = self._active_recording_parameters
@@ -88,6 +90,8 @@ class TapeRecorder(object):
                 # some exception raised in following code
                 self._reset_active_recording()
 
+            # Recording was discarded
+            if recording is not None:
                 if not self._should_sample_active_recording(recording, recording_parameters, force_sample):
                     self.tape_cassette.abort_recording(recording)
                 else:
@@ -107,23 +111,26 @@ class TapeRecorder(object):
         """
         Discards currently active recording process
         """
-        recording = self._active_recording
+        # Take the recording atomically so it is aborted exactly once even when discarded concurrently
+        with self._state_lock:
+            recording = self._active_recording
+            self._reset_active_recording()
         if recording is not None:
             _logger.info(
                 u'Recording with id {} was discarded'.format(recording.id))
             self.tape_cassette.abort_recording(recording)
-            self._reset_active_recording()
 
     def force_sample_recording(self):
         """
         Make sure currently active recording will be sampled (unless explicitly discarded or set to ignore enforcement)
         """
-        if self._active_recording is not None:
-            if self._active_recording_parameters.ignore_enforced_sampling:
-                return
-            _logger.info(
-                u'Recording with id {} sampling is enforced'.format(self._active_recording.id))
-            self._force_sample = True
+        with self._state_lock:
+            if self._active_recording is not None:
+                if self._active_recording_parameters.ignore_enforced_sampling:
+                    return
+                _logger.info(
+                    u'Recording with id {} sampling is enforced'.format(self._active_recording.id))
+                self._force_sample = True
 
     @property
     def is_recording_sample_forced(self):
@@ -167,11 +174,12 @@ class TapeRecorder(object):
         """
         Reset recording state, make tape recorder ready for next recording
         """
-        self._active_recording = None
-        self._active_recording_parameters = None
-        self._force_sample = False
-        # Clear any previous invocation counter state
-        self._invoke_counter = Counter()
+        with self._state_lock:
+            self._active_recording = None
+            self._active_recording_parameters = None
+            self._force_sample = False
+            # Clear any previous invocation counter state
+            self._invoke_counter = Counter()
 
     def _record_data(self, key, data):
         """
